@@ -13,7 +13,10 @@ The specs carry a carrier encoding per block / per question (constant Encs); har
 payloads that way (redundant "hash" member forged, naming another real transaction, or missing; junk gasUsed; unknown members,
 member order, white space, hex case), another box around the same sub-transaction, the same sub-transaction twice in a box, in
 two boxes of a block, in a box and alone; blocks are offered with exactly those payloads.  Demanded answers / verdicts / effects
-are functions of the signed content only (negative controls CarrierKeyed / CarrierIdentity)."""
+are functions of the signed content only (negative controls CarrierKeyed / CarrierIdentity).
+Own carrier (layer 2): harness/adapters/txguard/own.go writes real signed stand-alone transactions again in other forms of their own RLP /
+JSON (optional / defaulted / derivable members dropped, defaulted or written redundantly; constant OwnEncs) - alone, beside the original,
+inside a box, arriving by wire / RPC; such a variant is refused or is the original to the replay guard (how = "car" is admitted by no deviation)."""
 import vlib
 LEVEL = "model_checking"
 
@@ -27,8 +30,10 @@ MANIFEST = dict(
          "block, box + standalone, twice in one box, other signature encoding, expired / too early; before/after stable advances and restarts) are built as real blocks by "
          "the real assembler, offered to a real chain.BlockChain, and TLC validates: accepted iff every payload takes effect at most once on the branch and inside its "
          "window, and recipient balances grow by exactly the packaged occurrences - also for blocks whose box payloads are written in every carrier encoding (one t in two "
-         "differently written boxes, in another box, twice in one box, in two boxes of one block, in a box and alone; one branch and two forks); the engine's own MineBlock "
-         "is driven with a pool refilled from side-fork blocks and by arrivals through the admission lines of SendTx / handleTxsMsg (wire RLP and RPC JSON, every carrier encoding).",
+         "differently written boxes, in another box, twice in one box, in two boxes of one block, in a box and alone; one branch and two forks) and for "
+         "stand-alone transactions written again in other forms of their own RLP / JSON carrier (gasPayer absent vs = from in both directions, JSON null, "
+         "default-valued members dropped, `to` toggled, version defaulted; alone, beside the original, inside a box): refused, or the original's identity; the engine's own MineBlock "
+         "is driven with a pool refilled from side-fork blocks and by arrivals through the admission lines of SendTx / handleTxsMsg (wire RLP and RPC JSON, every carrier encoding and every own-carrier form).",
     note="Layer 1 reproduces the 10-line reload loop of BlockChain.initTxPool in the adapter (it needs a whole BlockChain); layer 2 restarts through the real "
          "chain.NewBlockChain. Three genuine defects were found: duplicates inside one block and the miner re-packaging a side-fork transaction are repaired in /repo "
          "(fix: commits, known_findings.txt); signature malleability (another encoding = another tx hash) is carried as named deviation Dev_TxMalleableEncoding. "
@@ -120,6 +125,14 @@ def run(ctx):
     sm = l2("MCTxGuardChain_carrierq.cfg" if ctx.quick() else "MCTxGuardChain_carrier.cfg", "l2_carriers",
             "carrier encodings of box payloads offered to the real engine", 0)
     ctx.cov["samples"] += sm["samples"][:2]
+    # the transaction's OWN carrier: t / n (a transfer signed without the optional gasPayer member) and the same transactions written again
+    # by somebody else with an optional / defaulted / derivable member of their RLP / JSON dropped, defaulted or written redundantly
+    # (gasPayer toggled, JSON null, defaults dropped, `to` toggled, version defaulted), alone, beside the original and inside a box, in two
+    # blocks of a branch / on two forks: a variant is refused or it is the original to the replay guard
+    negative(ctx, "MCTxGuardChain_negown.cfg", ("AtMostOnce",), module="MCTxGuardChain")
+    sm = l2("MCTxGuardChain_ownq.cfg" if ctx.quick() else "MCTxGuardChain_own.cfg", "l2_own",
+            "own-carrier variants of stand-alone transactions offered to the real engine", 350 if ctx.quick() else 2500)
+    ctx.cov["samples"] += sm["samples"][:1]
     # a reimbursement transaction priced twice by its gas payer, a signature appended by somebody else: always run (an unlisted
     # deviation is a violation)
     negative(ctx, "MCTxGuardChain_negpay.cfg", ("AtMostOnce",), module="MCTxGuardChain")
@@ -141,6 +154,9 @@ def run(ctx):
     ctx.extra["carrier_encodings"] = {"c": "canonical (types.MarshalBoxData)", "h": "hash member of every sub-transaction forged, another value per occurrence",
                                       "k": "hash member names another real transaction (t <-> u)", "g": "no hash member, junk gasUsed (RLP gasUsed junk for candidates)",
                                       "x": "member order reversed, white space, unknown members, upper-case hex in signatures"}
+    ctx.extra["own_carrier_forms"] = {"p": "gasPayer member toggled: written (= from) <-> absent (RLP empty string / JSON member dropped)", "q": "as p, JSON writes null",
+                                      "o": "every optional JSON member holding its default dropped (RLP unchanged: the same transaction)",
+                                      "r": "`to` member toggled: written <-> absent (zero address where it was absent)", "v": "version member defaulted (0)"}
     ctx.assumptions += ["layer 2: 2 deputies, 30 s slots, block timestamps genesis + {30, 60, 1830, 1860, 1890} s; t/boxes expire at genesis+1830, u at genesis+1860",
                         "effects are observed as recipient balance / amount in the state of each block (builder and node under test)",
                         "miner driver: the chain is laid out relative to a clock read once (genesis = now - 600 s, 100000 s slots, expirations genesis + 1500 s); verdicts hold for any run shorter than 15 minutes"]
